@@ -70,6 +70,8 @@ func main() {
 			os.Exit(2)
 		}
 		os.Exit(run.Replay(os.Args[2]))
+	case "mkwitness":
+		os.Exit(props.MakeWitnesses())
 	case "selftest":
 		os.Exit(props.SelfTest())
 	default:
